@@ -38,7 +38,7 @@ def _small_surface(draw, variant, tracks, spt):
 
 @st.composite
 def image_case(draw):
-    ext = draw(st.sampled_from(EXTS))
+    ext = draw(st.sampled_from(EXTS + ["hfe"]))
     c = {"kind": "image", "ext": ext, "seed": draw(st.integers(0, 10 ** 6))}
     variant = draw(st.sampled_from(["acorn", "acorn", "watford", "opus"]))
     if ext in ("ssd", "dsd", "mmb", "hfe", "mfm") and variant == "opus":
@@ -48,8 +48,17 @@ def image_case(draw):
         c["tracks"] = 40 if variant == "opus" else draw(st.integers(1, 4))
         c["enc"] = "MFM" if (ext == "mfm" or variant == "opus") else draw(st.sampled_from(["FM", "MFM"]))
         c["spt"] = 10 if c["enc"] == "FM" else 18
-        c["version"] = draw(st.sampled_from([1, 3]))
+        c["version"] = draw(st.sampled_from([1, 3, 3]))
         c["nsides"] = draw(st.sampled_from([1, 2]))
+        ops = []
+        if c["version"] == 3 and ext == "hfe":
+            for _ in range(draw(st.integers(1, 4))):
+                k = draw(st.sampled_from(["nop", "setindex", "setbitrate", "skipbits", "skipbits"]))
+                arg = draw(st.integers(0, 255))
+                if k == "skipbits":
+                    arg = draw(st.integers(0, 7)) & (6 if c["enc"] == "FM" else 7)
+                ops.append([draw(st.sampled_from([0, 1, 5, 100, 255, 256, 300, 511, 512, 1000])), k, arg])
+        c["v3ops"] = ops
     else:
         c["tracks"] = draw(st.sampled_from([40, 80, 35]))
         c["spt"] = 18 if ext in ("sdd", "ddd") else 10
@@ -126,7 +135,14 @@ def build_image(c):
         bounds += [16, 32, 8192, 8192 + 256, 8192 + 512]
     elif ext == "hfe":
         sides = [img] * c["nsides"]
-        data = flux.hfe_from_sides(sides, c["tracks"], c["spt"], c["enc"], version=c["version"])
+        v3ops = None
+        if c.get("v3ops"):
+            def v3ops(t, sd, ops=c["v3ops"]):
+                d = {}
+                for pos, k, arg in ops:
+                    d.setdefault(pos, []).append((k, arg))
+                return d
+        data = flux.hfe_from_sides(sides, c["tracks"], c["spt"], c["enc"], version=c["version"], v3ops=v3ops)
         bounds += [8, 9, 10, 11, 12, 18, 20, 512, 512 + 4, 512 + 4 * c["tracks"], 1024, 1024 + 256, 1024 + 512]
     else:
         sides = [img] * c["nsides"]
